@@ -2,15 +2,15 @@
 # ./confirm_suite.sh <seeded dir> : the pinned suite on a scratch worktree with the change applied -> one result line
 DIR="$(cd "$(dirname "$0")" && pwd)"
 D="$(cd "$1" && pwd)"; N="$(basename "$D")"
-WT="/tmp/validate/s_$N"; mkdir -p /tmp/validate; rm -rf "$WT"; git -C /repo worktree prune
+WT="/root/scratch/validate/s_$N"; mkdir -p /root/scratch/validate; rm -rf "$WT"
 git -C /repo worktree add --detach "$WT" HEAD -q || exit 2
 at=HEAD
 if ! git -C "$WT" apply "$D/patch.diff" 2>/dev/null; then
   git -C /repo worktree remove --force "$WT"; git -C /repo worktree add --detach "$WT" 05d7c43 -q || exit 2; at=05d7c43
   git -C "$WT" apply "$D/patch.diff" || { echo "$N: PATCH DOES NOT APPLY"; git -C /repo worktree remove --force "$WT"; exit 1; }
 fi
-(cd "$WT" && env -u PYNENC_VERIF PYTHONPATH="$WT" timeout 3600 /venv/bin/python -m pytest -q -p no:cacheprovider --timeout=900 --continue-on-collection-errors > /tmp/validate/$N.suite.log 2>&1)
-SUM=$(grep -aE "[0-9]+ passed|[0-9]+ failed" /tmp/validate/$N.suite.log | tail -1)
-FAILS=$(grep -aE "^(FAILED|ERROR) " /tmp/validate/$N.suite.log | cut -c1-160 | tr '\n' ';')
+(cd "$WT" && env -u PYNENC_VERIF PYTHONPATH="$WT" timeout 3600 /venv/bin/python -m pytest -q -p no:cacheprovider --timeout=900 --continue-on-collection-errors > /root/scratch/validate/$N.suite.log 2>&1)
+SUM=$(grep -aE "[0-9]+ passed|[0-9]+ failed" /root/scratch/validate/$N.suite.log | tail -1)
+FAILS=$(grep -aE "^(FAILED|ERROR) " /root/scratch/validate/$N.suite.log | cut -c1-160 | tr '\n' ';')
 echo "$N: base=$at :: $SUM :: $FAILS"
 git -C /repo worktree remove --force "$WT"
